@@ -20,6 +20,11 @@ def to_diff(nodes):
             for n in nodes]
 
 
+def back(d):
+    return [{"op": op, "row": row, "raw": (m or {}).get("raw_rule", ""), "key": list((m or {}).get("key", ()) or ()),
+             "kids": back(ch)} for (op, row, ch, m) in d]
+
+
 def one(case):
     res = {}
     try:
@@ -30,6 +35,8 @@ def one(case):
         except KeyError as e:
             res["confirm"] = None
             res["confirm_err"] = "KeyError"
+        if case.get("want_resorted"):
+            res["resorted"] = back(resort_diff(d))
         res["pre"] = list(gen_pre_as_diff(patching.make_pre(d), False, case["indent"], True))
         try:
             res["pre_resorted"] = list(gen_pre_as_diff(patching.make_pre(resort_diff(d)), False, case["indent"], True))
